@@ -100,11 +100,15 @@ fn once(path: &str, src: &str) -> String {
     }
 }
 
-/// `asm <hex of source text>`: assemble twice in fresh assemblers.
+/// `asm <hex of source text> [<hex of the path given to ingest>]`: assemble twice in fresh assemblers.
 pub fn run(args: &[&str]) -> String {
     let src = String::from_utf8(unhex(args[0])).expect("source must be utf-8");
-    let a = std::panic::catch_unwind(|| once("root.etk", &src)).unwrap_or_else(|_| "panic".into());
-    let b = std::panic::catch_unwind(|| once("root.etk", &src)).unwrap_or_else(|_| "panic".into());
+    let path = match args.get(1) {
+        Some(p) => String::from_utf8(unhex(p)).expect("path must be utf-8"),
+        None => "root.etk".to_string(),
+    };
+    let a = std::panic::catch_unwind(|| once(&path, &src)).unwrap_or_else(|_| "panic".into());
+    let b = std::panic::catch_unwind(|| once(&path, &src)).unwrap_or_else(|_| "panic".into());
     if a == b {
         a
     } else {
